@@ -2,13 +2,13 @@
 
 proof          lean/PyTealV/Proofs/C11.lean (+ C11Rename.lean) on the SESSION model
                lean/PyTealV/Models/Session.lean (process-global counters, `_current_proto`, declaration
-               caches) and on the C10 slot model: the compile result depends only on the relative order
-               of the program's own ids (`compile_rel_order_only`), the session invariant for histories
-               in which no subroutine body raises (`session_inv_partial`), history independence
-               (`compile_history_independent_partial`), the tie-break of `sorted(allSlots, key=id)` is
-               invisible when ids are distinct (`compile_tiebreak_irrelevant`), and the two
-               counterexamples of the full statement (`session_counterexample`,
-               `router_recompile_counterexample`).
+               caches) and on the C10 slot model.  Full strength, all histories: `session_inv`
+               (`_current_proto` is None between API calls - true since fix 6bedda4 put the restore of
+               `_frame_pointer_context` in a `finally:`), `decl_shape_inv`, `compile_history_independent`,
+               `compile_rel_order_only`, `compile_tiebreak_irrelevant`, `compile_idempotent`.  Still partial:
+               `compile_history_independent_anysort_partial` (any tie-break of sorted(allSlots, key=id), for
+               targets without colliding slot ids) with `router_recompile_counterexample`.  Regression
+               witness of the fix: `session_counterexample_old`.
 correspondence (part A) random sessions of API operations executed by the REAL code in separate
                interpreter processes (explicit PYTHONHASHSEED) and by the model (driver `c11-run`):
                after every operation the same `ScratchSlot.nextSlotId`,
@@ -19,11 +19,13 @@ exploration    (part B, what no Lean model exhibits: fresh interpreters, hash se
                target (recipe programs with subroutines / requested, automatic and dynamic slots, ABI
                subroutines, routers compiled repeatedly and at different versions, templates, probed
                subroutines) is built and compiled in SEPARATE interpreter processes after DIFFERENT prior
-               histories and under different hash seeds; all TEAL texts of one target must be
+               histories (incl. compilations failing at every stage and subroutine bodies raising under
+               frame pointers) and under different hash seeds; all TEAL texts of one target must be
                byte-identical across processes and repeats.  A difference is a KNOWN-FINDING only when
-               the session model predicts it (leaked `_current_proto`, colliding slot ids on a router
-               re-compile) AND the real difference has exactly the predicted shape; anything else is a
-               VIOLATION whose replay holds both child scripts.
+               the session model predicts it (colliding slot ids on a router re-compile) AND the real
+               difference has exactly the predicted shape (a renaming of slot numbers); anything else -
+               in particular a `_current_proto` leaking out of a failed compilation again - is a
+               VIOLATION whose replay holds both child scripts (history + target).
 """
 from __future__ import annotations
 
@@ -46,14 +48,14 @@ from common import Report, check_proofs, proof_coverage, Driver, rng, seed  # no
 
 PYTHON = "/venv/bin/python"
 PROOF_MODULES = ["PyTealV.Proofs.C11", "PyTealV.Proofs.C11Rename"]
-KEY_LEAK = "C11-proto-leak-after-failed-compile"
 KEY_TIE = "C11-router-recompile-slot-id-collision"
 REQUIRED_THEOREMS = [
     "PyTealV.Proofs.C11Rename.assignWith_rename", "PyTealV.Proofs.C11Rename.assignSlots_rename",
     "PyTealV.Proofs.C11Rename.assignWith_tiebreak_irrelevant",
     "PyTealV.Proofs.C11.compile_rel_order_only", "PyTealV.Proofs.C11.compile_tiebreak_irrelevant",
-    "PyTealV.Proofs.C11.decl_shape_inv", "PyTealV.Proofs.C11.session_inv_partial",
-    "PyTealV.Proofs.C11.session_counterexample", "PyTealV.Proofs.C11.compile_history_independent_partial",
+    "PyTealV.Proofs.C11.decl_shape_inv", "PyTealV.Proofs.C11.session_inv",
+    "PyTealV.Proofs.C11.session_counterexample_old", "PyTealV.Proofs.C11.compile_history_independent",
+    "PyTealV.Proofs.C11.compile_history_independent_anysort_partial",
     "PyTealV.Proofs.C11.compile_idempotent", "PyTealV.Proofs.C11.router_recompile_counterexample",
 ]
 TRUSTED = [
@@ -545,11 +547,12 @@ def gen_session(r, n_ops: int) -> list[str]:
 
 
 FIXED_SESSIONS = [
-    # the Lean counterexample `session_counterexample`: failing v8 compile, then an unrelated abi.Uint64()
+    # the history of Lean `session_counterexample_old` / `session_counterexample_fixed`: failing v8 compile, then an
+    # unrelated abi.Uint64() (leaked the frame-pointer marker before fix 6bedda4)
     "sub:1:1:0:0:0:0:1 compile:8:n:-:-:-:1 abi:2 compile:8:n:-:-:2:-".split(),
     # the same below version 8: no frame-pointer evaluation, nothing leaks
     "sub:1:1:0:0:0:1:1 compile:7:n:-:-:-:1 abi:2 compile:7:n:-:-:2:-".split(),
-    # a raising SCRATCH evaluation resets a leaked marker
+    # raising evaluations under both conventions, ABI values created in between
     "sub:1:0:0:1:0:1:1 eval:1:f abi:2 eval:1:s abi:3 compile:8:n:-:-:2,3:-".split(),
     # probing: both conventions evaluated, counter rewound, nothing cached
     "sub:1:2:3:1:0:0:0 slot:2 probe:1 slot:3 probe:1 eval:1:s probe:1 compile:6:n:-:2,3:-:1".split(),
@@ -1155,18 +1158,20 @@ class Predictor:
         return words, words[-1].rpartition("@")[2].split(",")[2]
 
     def predict(self, history, t) -> dict:
-        """leak: the marker is set after the history; visible: the model's observations of the target differ
-        from those in a fresh process; ties: labels of the target whose compile result has an id collision"""
+        """proto: the marker after the history (the model says `-` after EVERY history: `session_inv`);
+        obs: the model's observations of the target after the history (equal to those in a fresh process:
+        `compile_history_independent`); ties: labels of the target whose compile result has an id collision"""
         hops = precise_ops(history)
         _, proto = self.run(hops)
         tops = model_target_ops(t)
-        out = {"leak": proto != "-", "visible": False, "ties": [], "obs": None}
+        out = {"proto": proto, "ties": [], "obs": None}
         if tops is None:
             return out
         strip = lambda ws: [w.rpartition("@")[0] + "@" + w.rpartition("@")[2].split(",")[2] for w in ws]  # noqa: E731
         with_h = strip(self.run(hops + tops)[0][len(hops):])
         fresh = strip(self.run(tops)[0])
-        out["visible"] = with_h != fresh
+        if with_h != fresh or proto != "-":
+            raise common.ToolFailure("session model contradicts its own theorems (session_inv / compile_history_independent)")
         out["obs"] = with_h
         if t["kind"] == "router":
             base = len(t["descs"]) + 1
@@ -1320,8 +1325,8 @@ def _part_b_wave(rep: Report, P, targets: dict, hist_kinds, hashseeds, n_fresh_t
                 preds[hk] = P.predict(jobs[i][0]["history"], t)
             pr = preds[hk]
             stats["comparisons"] = stats.get("comparisons", 0) + len(res["labels"])
-            if pr["leak"]:
-                stats["leaking_histories"] = stats.get("leaking_histories", 0) + 1
+            if any(a.get("op", "").startswith("sub:") and a["op"].endswith(":1") for a in jobs[i][0]["history"]):
+                stats["histories_with_fp_raising_body"] = stats.get("histories_with_fp_raising_body", 0) + 1
             # (1) exact model prediction for session targets
             if t["kind"] == "session" and pr["obs"] is not None:
                 dm = session_target_mismatch(t, pr["obs"], res)
@@ -1339,12 +1344,7 @@ def _part_b_wave(rep: Report, P, targets: dict, hist_kinds, hashseeds, n_fresh_t
                     if a["sha"] == b["sha"]:
                         continue
                     stats["diffs_within_process"] = stats.get("diffs_within_process", 0) + 1
-                    if pr["leak"] and pr["visible"] and (a["frame"] or b["frame"] or "err" in (a["st"], b["st"])):
-                        # every ABI value created while the marker is set takes the next index of the dead proto
-                        stats["leak_diffs_confirmed"] = stats.get("leak_diffs_confirmed", 0) + 1
-                        record(rep, "leak-within", f"with a leaked proto, re-building target {ti} gives other frame indices ({have[0]} vs {g})",
-                                      dict(replay, label=g, within=have[0]), key=KEY_LEAK)
-                    elif (g in pr["ties"] or have[0] in pr["ties"]) and a["csha"] == b["csha"] and a["st"] == b["st"] == "ok":
+                    if (g in pr["ties"] or have[0] in pr["ties"]) and a["csha"] == b["csha"] and a["st"] == b["st"] == "ok":
                         stats["tie_diffs_confirmed"] = stats.get("tie_diffs_confirmed", 0) + 1
                         record(rep, "tie-within", f"repeated Router.compile_program differs by a renaming of slot numbers (target {ti}, {have[0]} vs {g})",
                                       dict(replay, label=g), key=KEY_TIE)
@@ -1359,24 +1359,15 @@ def _part_b_wave(rep: Report, P, targets: dict, hist_kinds, hashseeds, n_fresh_t
                     continue
                 any_diff = True
                 stats["diffs_across_processes"] = stats.get("diffs_across_processes", 0) + 1
-                if pr["leak"] and pr["visible"] and ((b["frame"] and not a["frame"]) or (b["st"] == "err" and a["st"] == "ok")
-                                                     or t["kind"] == "session"):
-                    stats["leak_diffs_confirmed"] = stats.get("leak_diffs_confirmed", 0) + 1
-                    record(rep, "leak-across", f"after a version-8 compilation whose subroutine body raised, the unrelated target {ti} ({t['kind']}) "
-                                  f"compiles differently (label {lab}: " + ("frame_bury/frame_dig in the main routine" if b["frame"] else b["head"][:80]) + ")",
-                                  dict(replay, label=lab), key=KEY_LEAK)
-                elif lab in pr["ties"] and a["csha"] == b["csha"] and a["st"] == b["st"] == "ok":
+                if lab in pr["ties"] and a["csha"] == b["csha"] and a["st"] == b["st"] == "ok":
                     stats["tie_diffs_confirmed"] = stats.get("tie_diffs_confirmed", 0) + 1
                     record(rep, "tie-across", f"Router.compile_program #{lab} of target {ti} differs between processes by a renaming of slot numbers",
                                   dict(replay, label=lab), key=KEY_TIE)
                 else:
                     record(rep, "across-processes", f"target {ti} ({t['kind']}) label {lab}: TEAL differs between [history {meta[base_i][1]}, hash seed {meta[base_i][2]}] and "
-                                  f"[history {hk}, hash seed {hs}]" + (f" ({b['head'][:80]})" if b["st"] == "err" else ""), dict(replay, label=lab))
-            if pr["leak"] and pr["visible"] and not any_diff:
-                record(rep, "leak-not-visible", f"model predicts a visible effect of the leaked proto on target {ti} ({t['kind']}) after history {hk}, "
-                              "the real TEAL is identical", dict(replay, theorem="session_counterexample"), no_input=True)
-            if pr["leak"] and pr["visible"]:
-                stats["leak_visible_predicted"] = stats.get("leak_visible_predicted", 0) + 1
+                                  f"[history {hk}, hash seed {hs}]" + (f" ({b['head'][:80]})" if b["st"] == "err" else "")
+                                  + (" - frame_bury/frame_dig in the main routine: `_current_proto` leaked out of the history" if b["frame"] and not a["frame"] else ""),
+                                  dict(replay, label=lab))
         if any(preds[h]["ties"] for h in preds):
             stats["targets_with_predicted_tie"] = stats.get("targets_with_predicted_tie", 0) + 1
 
@@ -1412,18 +1403,25 @@ def part_a(rep: Report, n_sessions: int, hashseeds: list[str], stats: dict):
 
 
 def replay_known(rep: Report, stats: dict):
-    """the two Lean counterexamples on the real code, each in a fresh interpreter"""
-    leak = spawn({"kind": "session", "ops": FIXED_SESSIONS[0]}, "0")
-    tr = leak.get("trace", [])
-    if len(tr) == 4 and tr[1].startswith("r.body@") and not tr[1].endswith(",-") and ";f0;" in tr[3]:
-        rep.violation("`_frame_pointer_context` has no try/finally: after a failed version-8 compilation an unrelated abi.Uint64() "
-                      "compiles to frame_bury 0 / frame_dig 0 outside any frame", {"kind": "session", "ops": FIXED_SESSIONS[0], "hashseed": "0"},
-                      key=KEY_LEAK)
-        stats["counterexample_leak_reproduced"] = True
-    else:
-        stats["counterexample_leak_reproduced"] = False
-        rep.violation("Lean `session_counterexample` does not reproduce on the real code (model out of date?): " + " ".join(tr),
-                      {"kind": "session", "ops": FIXED_SESSIONS[0], "hashseed": "0", "theorem": "session_counterexample"}, no_input=True)
+    """the history of the fixed finding (Lean `session_counterexample_old`) and the remaining Lean counterexample
+    on the real code, each in fresh interpreters"""
+    # regression of fix 6bedda4: a version-8 compilation whose subroutine body raises, then an unrelated
+    # abi.Uint64() in a main routine; before the fix it compiled to frame_bury 0 / frame_dig 0
+    target = {"kind": "session", "ops": ["abi:2", "compile:8:n:-:-:2:-"]}
+    hist = [{"op": w} for w in FIXED_SESSIONS[0][:2]]
+    a, b = run_children([({"kind": "target", "history": [], "target": target, "full": True}, "0"),
+                         ({"kind": "target", "history": hist, "target": target, "full": True}, "0")], fresh=True)
+    la, lb = a.get("labels", {}).get("op1"), b.get("labels", {}).get("op1")
+    stats["fixed_leak_history_replayed"] = bool(la and lb)
+    if not la or not lb:
+        rep.violation("child process failed while replaying the history of the fixed finding: " + str(a)[:200] + str(b)[:200],
+                      {"target": target, "a": {"history": [], "hashseed": "0"}, "b": {"history": hist, "hashseed": "0"}})
+    elif la["sha"] != lb["sha"] or not b.get("state", "").endswith(",-"):
+        rep.violation("REGRESSION of fix 6bedda4: after a version-8 compilation whose subroutine body raised, `_current_proto` is "
+                      f"{b.get('state')} and an unrelated abi.Uint64() compiles differently"
+                      + (" (frame_bury/frame_dig outside any frame)" if lb["frame"] else ""),
+                      {"target": target, "label": "op1", "a": {"history": [], "hashseed": "0", "history_kind": "nothing"},
+                       "b": {"history": hist, "hashseed": "0", "history_kind": "raise-fp"}})
     # router re-compilation: different processes / hash seeds give different second compilations
     job = {"kind": "target", "history": [], "full": False,
            "target": {"kind": "router", "bare": True, "va": 6, "vb": 8,
